@@ -216,7 +216,7 @@ def compare_flags(R, recs, limit=20):
     return len(bad)
 
 
-def compare(R, recs, stream, mechanism_of=None, check_parse=True, sample_every=997, explain_rec=None):
+def compare(R, recs, stream, mechanism_of=None, check_parse=True, sample_every=997, explain_rec=None, reject_is_violation=False):
     """feed a batch of records into the Run: correspondence + spec check"""
     hist = R.extra.setdefault('outcomes', {}).setdefault(stream, {})
 
@@ -227,6 +227,10 @@ def compare(R, recs, stream, mechanism_of=None, check_parse=True, sample_every=9
         if 'grammar_error' in r:
             bump('grammar:' + r['grammar_error'].split(':')[0] + ':' + r['grammar_error'].split(':')[1][:20]
                  if ':' in r['grammar_error'] else 'grammar:' + r['grammar_error'])
+            if r['grammar_error'].startswith('exception:') and not r.get('may_reject') and reject_is_violation:
+                R.count(stream, (r['desc'], 'construct'), False)
+                R.counterexample(stream, 'generated-grammar-rejected:' + r['grammar_error'].split(':')[1], {'grammar': r['desc']},
+                                 'a grammar module (the generators only produce well-formed grammars)', r['grammar_error'])
             if r['grammar_error'].startswith('export:'):
                 # sourcer built something the exporter does not know (a new class or attribute): the model cannot be
                 # tied to this grammar, so the correspondence is broken, not skipped
